@@ -150,3 +150,17 @@ def feasible_valuations(f, pos, domains):
         if eval_expr(f, a[0], {k: list(domains[k])[0] for k in keys}) is None:
             opaque.append((key(f, a[0]), a[1]))
     return feas, opaque, atoms
+
+
+def incoming_edge_atoms(f, block):
+    """for each CFG edge into `block`: the atoms that hold on that edge (own condition of the predecessor)"""
+    out = []
+    for p in f.preds.get(block, []):
+        b = f.blocks[p]
+        c = b.get("cond")
+        atoms = []
+        if c is not None and len(b["succ"]) == 2 and b.get("tk") != "SwitchStmt" and b["succ"][0] != b["succ"][1]:
+            truth = b["succ"][0] == block
+            atoms = list(q.cond_atoms(f, c, truth))
+        out.append((p, atoms))
+    return out
